@@ -197,6 +197,65 @@ PAIR_NAMES = [(b"caf\xe9", b"caf\xe8"), (b"a\xffb", b"a\xfeb"), ("e\u0301t\u00e9
               (b"Dir", b"dir"), (b"x y", b"x  y"), (b"p.", b"p"), (b"q", "q\u200b".encode()), (b"ab", b"a")]
 
 
+def two_filesystems_section(pid, res, count):
+    """C02 / C06 on a replica root that spans TWO filesystems (a mounted disk, a bind mount or a subvolume below the root): files
+    on the two filesystems can carry the same inode NUMBER. With hard-linked files of equal inode number on either side of the
+    mount point, the first run must deliver every file's own bytes, an immediate second run is idle, and a divergent edit (in
+    place on the two-filesystem side) keeps both versions (seed C02-M: digests reused per `st_ino` without `st_dev`).
+    Skipped (counted) where tmpfs mounts are not permitted."""
+    import re
+    with Sandbox(pid) as sb:
+        a, b = sb.path("A"), sb.path("B")
+        os.makedirs(a); os.makedirs(b)
+        mounted = []
+        try:
+            for mp in (a, os.path.join(a, "sub")):
+                os.makedirs(mp, exist_ok=True)
+                if subprocess.run(["mount", "-t", "tmpfs", "none", mp], stdout=subprocess.PIPE, stderr=subprocess.PIPE).returncode != 0:
+                    count("two-filesystems/skipped-no-mount")
+                    return
+                mounted.append(mp)
+            k, v = os.path.join(a, "k"), os.path.join(a, "sub", "v")
+            open(k, "wb").write(b"KKKK"); open(v, "wb").write(b"V0")
+            for _ in range(3000):
+                ik, iv = os.stat(k).st_ino, os.stat(v).st_ino
+                if ik == iv:
+                    break
+                if iv < ik:
+                    os.remove(v); open(v, "wb").write(b"V0")
+                else:
+                    os.remove(k); open(k, "wb").write(b"KKKK")
+            if os.stat(k).st_ino != os.stat(v).st_ino or os.stat(k).st_dev == os.stat(v).st_dev:
+                count("two-filesystems/skipped-inode-numbers-differ")
+                return
+            os.link(k, k + ".lnk"); os.link(v, v + ".lnk")
+            want1 = {"k": b"KKKK", "k.lnk": b"KKKK", "sub/v": b"V0", "sub/v.lnk": b"V0"}
+            hist = ["A = tmpfs, A/sub = another tmpfs; A/k (+ hard link k.lnk) and A/sub/v (+ hard link v.lnk) have the same inode number", "bisync"]
+            rc1, _, e1 = sb.run(["bisync", a, b])
+            tb = sb.read_tree(b)
+            count("two-filesystems/first-run")
+            rep = {"history": list(hist), "rc": rc1, "stderr": e1.decode("utf-8", "replace")[-300:], "B": {p_: c_[:20].decode("latin1") for p_, c_ in tb.items()}}
+            if rc1 == 0 and tb != want1:
+                res["violations"].append(("first-run-did-not-converge", f"after an exit-0 first run into an empty replica, B differs from A at {sorted(p_ for p_ in set(tb) | set(want1) if tb.get(p_) != want1.get(p_))}", rep))
+            rc2, o2, e2 = sb.run(["bisync", a, b, "--dry-run"])
+            m = re.search(r"Bidirectional plan: (\d+)", e2.decode("utf-8", "replace"))
+            if pid == "C06" and rc1 == 0 and m and int(m.group(1)) != 0:
+                res["violations"].append(("second-run-not-idle", f"an immediate second run plans {m.group(1)} action(s)", dict(rep, second_run=e2.decode("utf-8", "replace")[-300:])))
+            open(v, "r+b").write(b"edit-made-on-A"); open(os.path.join(b, "sub", "v"), "wb").write(b"edit-made-on-B")
+            hist += ["write A sub/v (in place) 'edit-made-on-A'", "write B sub/v 'edit-made-on-B'", "bisync"]
+            rc3, _, e3 = sb.run(["bisync", a, b])
+            ta, tb = sb.read_tree(a), sb.read_tree(b)
+            count("two-filesystems/divergent-edit")
+            rep = {"history": hist, "rc": rc3, "stderr": e3.decode("utf-8", "replace")[-300:]}
+            for side_, t_ in (("A", ta), ("B", tb)):
+                for want in (b"edit-made-on-A", b"edit-made-on-B"):
+                    if want not in t_.values() and (rc3 == 0 or b"had conflicts" in e3):
+                        res["violations"].append(("version-lost", f"after the run the version {want.decode()!r} of sub/v exists nowhere on side {side_}", rep))
+        finally:
+            for mp in reversed(mounted):
+                subprocess.run(["umount", "-l", mp], stdout=subprocess.PIPE, stderr=subprocess.PIPE)
+
+
 def non_utf8_section(pid, res, count):
     """C02 on names that are not valid UTF-8 (oracle only: the model's names are strings). Whatever the tool does with such a
     name — today every run fails at the save of the record, after converging the trees — a file created on ONE side must never be
@@ -377,6 +436,21 @@ def run(pid, tier, seed, rundir, model_run):
         for again in (b"4", b"3", b"six" * 50):
             corpus.append([("both", "p", b"one\n", b"two two\n"), ("bisync",), ("editcc0", "A", b"ONE\n"), ("editcc0", "B", b"TWO two\n"), ("bisync",),
                            ("editcc0", "A", again), ("editcc0", "B", orig), ("bisync",), ("bisync",)])
+    # (seed C06-M) log rotation: the old bytes of p move to a NEW name that sorts after p, p itself gets new bytes — delivering the
+    # new name to the other side must deliver the OLD bytes (the other side's own copy of them, at p, is overwritten in this very run)
+    corpus.append([("both", "p", b"one\n", b"one\n"), ("bisync",), ("write", "A", "q", b"one\n"), ("write", "A", "p", b"two two\n"), ("bisync",), ("bisync",)])
+    corpus.append([("both", "d/e/x", b"3", b"3"), ("bisync",), ("write", "B", "d/e/x.1", b"3"), ("write", "B", "d/e/x", b"ONE\n"), ("write", "A", "p", b"3"), ("bisync",), ("bisync",)])
+    # (seed C07-M) ONE path diverges ten times: ten conflict copies of it, identical on both sides, accumulate. Whatever a run
+    # thinks of old conflict copies (a cap, a clean-up), they are versions like any other: none may vanish — in particular not in a
+    # run whose archive was damaged (C07: such a run deletes nothing)
+    many = []
+    for k_ in range(10):
+        many.append(("both", "p", b"A side, edit %d\n" % k_, b"B side, edit %d\n" % k_))
+        if pid == "C07" and k_ in (8, 9):
+            many.append(("fault", [0, 10][k_ - 8], 1))
+        many.append(("bisync",))
+    many.append(("bisync",))
+    corpus.append(many)
     histories = [(h, "corpus") for h in corpus] + [(None, "random") for _ in range(n_hist)]
     for hi, (hops, hkind) in enumerate(histories):
         length = rng.range(2, 12)
@@ -546,6 +620,8 @@ def run(pid, tier, seed, rundir, model_run):
     pair_dis = pair_identity_section(pid, res, count) if pid in ("C07", "C06") else 0
     if pid == "C02":
         non_utf8_section(pid, res, count)
+    if pid in ("C02", "C06"):
+        two_filesystems_section(pid, res, count)
     ops_f.close()
     with open(os.path.join(rundir, "impl.txt"), "w") as f:
         f.write("\n".join(impl_lines) + ("\n" if impl_lines else ""))
